@@ -15,7 +15,8 @@ EXPLANATION = (
     "tile), separated by '_', probabilities through prob_to_str, the force-down flag as a suffix chosen by the flag "
     "itself; holes are traced back to the parsed argument of the same name. Also the argument-swap rule over the "
     "generator modules."
-    ' Also: no function of the generator changes a mutable default argument (0:defaults): the name of the second file of a process is built like that of the first.')
+    ' Also: no function of the generator changes a mutable default argument (0:defaults): the name of the second file of a process is built like that of the first.'
+    ' No one-shot iterator is consumed twice on the way to the name (0:iter).')
 ASSUMPTIONS = ["probabilities are given as whole percentages k/100 (the property's domain for the 'appears as k' clause)"]
 TECHNIQUE = "symbolic string-template extraction + conversion idiom classification (ast)"
 
